@@ -58,6 +58,9 @@ RISKY = [
     ["x[^nm] y[^ot]", "", "[^nm]: footnote", "", "[^ot]: other", "", "(nm)=", "para"], ["x[^nm]", "", "[^nm]: footnote", "", "{#nm}", "para"], ["x[^nm]", "", "[^nm]: footnote", "", "```{note}", ":name: nm", "b", "```"],
     ["x[^nm]", "", "[^nm]: footnote", "", "$$a$$ (nm)"], ["(nm)=", "para", "", "x[^nm]", "", "[^nm]: footnote"], ["# nm", "", "x[^nm]", "", "[^nm]: footnote", "", "[](#nm)"], ["[^1]: one", "", "(1)=", "p", "", "x[^1] [](#1)"],
     ["x[^a] y[^a]", "", "[^a]: A", "", "[^b]: B unreferenced", "", "(b)=", "p"],
+    # headings inside directives that allow sections in their body
+    ["# top", "", "````{mv-titled}", "## inner", "", "text", "", "#### deeper", "````", "", "### after"], ["````{mv-titled}", "# first heading of the document", "", "## sub", "````"],
+    ["## h2", "", "````{mv-titled}", "### inner3", "", "# inner1", "````"], ["````{only} html", "## only heading", "", "text", "````"], ["# t", "", "````{only} html", "### skip", "````", "", "## u"],
 ]
 
 
@@ -82,6 +85,9 @@ def setup(ctx):
         return r
 
     DocutilsRenderer.render_restructuredtext = tagging
+    from .c05 import register_titled_directive
+
+    register_titled_directive()  # a directive that nested-parses with match_titles=True (what Sphinx' ``only`` does)
     mon.start_reach(ctx)
 
 
